@@ -45,6 +45,7 @@ type xStmt struct {
 	Shows  []string // showall: names displayed
 	Multi  bool     // rendered as an expression statement that spans two physical lines
 	ArgBad bool     // the call's argument expression itself raises (1 / 0): the callee never runs
+	Alias  string   // the function is first bound to this local name and called through it (functions are values)
 	Line   int    // physical line (1-based) assigned by the renderer
 }
 
@@ -417,6 +418,9 @@ func (g *xGen) stmtsIn(b *xBody, fs []*xBody, cs []*xClass, n int, depth int, to
 			if st.HasArg && g.t.Draw(10) == 9 {
 				st.ArgBad = true
 			}
+			if !st.Multi && g.t.Draw(6) == 5 {
+				st.Alias = "别" + g.local()
+			}
 			// one call in four is the second argument of a 显示 that continues on the next line
 			st.Multi = g.t.Draw(4) == 3
 			out = append(out, st)
@@ -578,6 +582,10 @@ func (x *xRender) stmts(indent int, ss []*xStmt) {
 			}
 			if s.ArgBad {
 				call = fmt.Sprintf("（%s：%d / 0）", s.Fn, s.Arg)
+			}
+			if s.Alias != "" {
+				x.emit(indent, fmt.Sprintf("令%s = %s", s.Alias, s.Fn))
+				call = strings.Replace(call, "（"+s.Fn, "（"+s.Alias, 1)
 			}
 			if s.Multi {
 				s.Line = x.emit(indent, fmt.Sprintf("（显示：“%s=”、\n%s%s）", s.Var, strings.Repeat("\t", indent+1), call))
